@@ -99,6 +99,8 @@ def _simplify(ctx, p, ci):
     if 'r2' in cost['enum']:
         t = F(rng.choice([0.5, 0.8, 0.9, 0.95, 0.99, 1.0]))
     dist = E('rdp.Distance.shortest') if rng.random() < 0.93 else E('rdp.Distance.perpendicular')
+    if rng.random() < 0.03:
+        dist = None          # the simplifiers document a fall-back to the shortest distance for any other value
     order = E('rdp.Order.' + rng.choice(ORDERS))
     if which == 'rdp':
         # plain rdp can fail to terminate on exact collinear runs / y == 0 chords (C01 territory): the
